@@ -122,7 +122,7 @@ def shapes(mm, vse, alt, k, site_or=None):
         if c not in seen:
             seen.add(c)
             out.append((label, v))
-            if isinstance(v, dict) and len(v) > 1 or isinstance(v, list) and v and isinstance(v[0], dict) and len(v[0]) > 1:
+            if label != "pair" and (isinstance(v, dict) and len(v) > 1 or isinstance(v, list) and v and isinstance(v[0], dict) and len(v[0]) > 1):
                 for how in ("reversed", "rotated"):
                     w = _reorder(v, how)
                     ck = "order:" + _json.dumps(w)
@@ -165,14 +165,30 @@ def shapes(mm, vse, alt, k, site_or=None):
                         out.append(("long", v))
     if site_or is not None and t["kind"] == "base" and t["name"] in ("string", "DocumentUri", "URI"):
         names = []
-        for it in site_or["items"]:
+
+        def collect(it, depth=0):
+            if depth > 6:
+                return
+            k = it["kind"]
+            if k == "reference" and it["name"] in mm.aliases and it["name"] not in ANY_ALIASES:
+                collect(mm.aliases[it["name"]]["type"], depth + 1)
+                return
+            if k == "or":
+                for x in it["items"]:
+                    collect(x, depth + 1)
+                return
+            if k == "array":
+                collect(it["element"], depth + 1)
+                return
             try:
-                ps = mm.props_of(it) if it["kind"] in ("reference", "literal", "and") else None
+                ps = mm.props_of(it) if k in ("reference", "literal", "and") else None
             except Exception:  # noqa: BLE001
                 ps = None
             for p in ps or []:
                 if p["name"] not in names:
                     names.append(p["name"])
+        for it in site_or["items"]:
+            collect(it)
         for nm in names:
             add("keyname", nm)
             add("keyname", "a-" + nm + "-b")
